@@ -21,7 +21,7 @@ META = {
                     "absolute tolerance 1e-9 on tail probabilities (the implementation's 1-cdf form has absolute accuracy)"],
     "deciding": ["poisson_evaluations._number_test_ndarray", "binomial_evaluations._nbd_number_test_ndarray", "stats.get_quantiles"],
 }
-META["added"] = 'Added: re-scaling histories with total reads in between, array-valued scale factors (per cell, per magnitude bin, full table), observed counts above 16384 through the public wrappers, in-place mutation of yielded catalogs before the catalog N-test. forecasts streamed from files with placeholder rows / id gaps, NBD variance ratios 1+1e-9..1e9.'
+META["added"] = "Added: re-scaling histories with total reads in between, array-valued scale factors (per cell, per magnitude bin, full table), observed counts above 16384 through the public wrappers, in-place mutation of yielded catalogs before the catalog N-test. forecasts streamed from files with placeholder rows / id gaps, NBD variance ratios 1+1e-9..1e9. catalogs with events outside the forecast's magnitude range, scaled T-test before the N-test, reference total snapshotted before any library call."
 MANIFEST = {
     "technique": "runtime post-conditions on the real number-test primitives and public tests vs independent incomplete-gamma/beta and explicit pmf-sum oracles; identity and monotonicity checkers over a parameter grid",
     "level_text": "Each call of the Poisson / NBD / empirical number-test primitives (2e4 quick, 1e6 thorough grid points plus end-to-end runs through the three public tests on generated forecasts and catalogs, including scaled forecasts) is checked against tails computed by incomplete gamma/beta functions and explicit pmf summation; delta1+delta2 = 1+pmf and monotonicity in the mean are checked across the grid.",
@@ -192,7 +192,8 @@ def _small_setup(total, n_obs, rng, scale=None):
         fore.scale(scale)
     cells = rng.integers(0, 4, n_obs)
     lons, lats = fixtures.events_in_cells(reg, cells, rng)
-    cat = fixtures.catalog(lons, lats, rng.choice([5.0, 5.05, 5.2], n_obs), region=reg)
+    # n_obs is the number of events IN THE CATALOG: some of them lie below the forecast's lowest magnitude edge or far above its last one
+    cat = fixtures.catalog(lons, lats, rng.choice([5.0, 5.05, 5.2, 4.2, 4.9499, 8.7], n_obs), region=reg)
     return fore, cat
 
 
@@ -200,6 +201,7 @@ def ex_e2e_poisson(ctx, total, n_obs, scale=None, seed=0, rescale_history=None):
     import csep.core.poisson_evaluations as pe
     rng = numpy.random.default_rng([seed, 7])
     fore, cat = _small_setup(total, n_obs, rng, scale)
+    base = numpy.array(fore._data, dtype=float, copy=True)       # the stored table as built: nothing below may change it
     if rescale_history:
         # history on one forecast object: the total is read (event_count / an N-test), then the same object is re-scaled
         for i_, f_ in enumerate(rescale_history):
@@ -211,13 +213,21 @@ def ex_e2e_poisson(ctx, total, n_obs, scale=None, seed=0, rescale_history=None):
                 shp = {"percell": (fore._data.shape[0], 1), "permag": (fore._data.shape[1],), "full": fore._data.shape}[f_]
                 f_ = ra.uniform(0.2, 3.0, shp)
             fore.scale(f_)
+    if seed % 5 == 3 and n_obs and not rescale_history:
+        # history: a scaled-rates T-test (per-day rates over the forecast horizon) ran on the same forecast object before the N-test
+        mags_ = fore.magnitudes
+        other = fixtures.gridded_forecast(numpy.asarray(fore.data) * 1.3 + 1e-3, fore.region, mags_)
+        incat = fixtures.catalog(cat.get_longitudes(), cat.get_latitudes(), numpy.full(cat.event_count, 5.0), region=fore.region)
+        ctx.call(pe.paired_t_test, fore, other, incat, scale=True)
+        ctx.call(fore.target_event_rates, incat, scale=True)
+        ctx.mon("history:scaled-T-test-before-N-test", 1)
     case = {"exec": "e2e_poisson", "args": {"total": total, "n_obs": n_obs, "scale": scale, "seed": seed, "rescale_history": rescale_history}}
     ok, res, tb = ctx.call(pe.number_test, fore, cat)
     ctx.mon("e2e:poisson number_test", 1)
     if not ok:
         ctx.violate("poisson number_test raised", case, observed=repr(res), tb=tb, tags={"law": "poisson", "e2e": True})
         return
-    mu = float(math.fsum((fore._data * fore._scale).ravel().tolist()))
+    mu = float(math.fsum((base * fore._scale).ravel().tolist()))
     ge, le, pmf = pois_tails(mu, n_obs)
     tags = {"law": "poisson", "e2e": True, "scaled": scale is not None, "n_zero": n_obs == 0, "rescale_history": bool(rescale_history), "n_obs_large": n_obs > 16384,
             "array_factor": bool(rescale_history) and any(isinstance(f_, str) for f_ in rescale_history)}
